@@ -872,6 +872,18 @@ class Run:
     # -------------------------------------------------------------------------------------------
     # expression evaluation
     def ev(self, node):
+        if self.depth == 0 and not isinstance(node, (ast.Name, ast.Constant)):
+            c = CONTRACTS.get(self.frames[-1].qname)
+            op_ = getattr(c, "opaque", None) if c is not None else None
+            if op_:
+                src = ast.unparse(node)
+                for prefix, ty in op_.items():
+                    if src.startswith(prefix) or src.startswith(alias_text(prefix)):
+                        # a side-effect-free expression outside the subset, declared opaque by the contract: an arbitrary
+                        # value of the declared type (sound over-approximation of a pure expression; listed in the evidence)
+                        self.v.opaque_hits.add(prefix)
+                        v = SV(ty, H.fresh("opaque", T.sort(ty)))
+                        return self.assume_typed(v)
         m = getattr(self, "ev_" + type(node).__name__, None)
         if m is None:
             raise Reject("expression %s" % type(node).__name__)
@@ -1099,6 +1111,10 @@ class Run:
             return self.call_method(a, self._dunder[op], [b], {})
         if isinstance(a, PyTuple) and isinstance(b, PyTuple) and op == "Add":
             return PyTuple(a.items + b.items, a.is_list)
+        if op == "Add" and isinstance(a, SV) and isinstance(b, SV) and isinstance(a.ty, T.List) and a.ty == b.ty:
+            out = self.copy_list(a)  # list + list: a fresh list, a's elements followed by b's
+            self.list_extend(out, b)
+            return out
         if not (isinstance(a, SV) and isinstance(b, SV)):
             raise Reject("binop %s on %r,%r" % (op, a, b))
         a = self.num(a)
